@@ -104,6 +104,9 @@ def run(ctx):
         except Exception as e:
             ctx.fail('StabilizerState.density_matrix', 'implementation raised %r' % e, dict(rows=rows, r=r)); continue
         ctx.q('density', 'density %d %s' % (r, H.erows_ops(rows)), [t[0] for t in terms], H.drows_ops)
+        # the whole polynomial (strings, phases, weights) against the model's densityPoly, about which C12_density_* are proved
+        ctx.q('density_matrix', 'densitypoly %d %s' % (r, H.erows_ops(rows)), [(t[0], t[1]) for t in terms],
+              lambda s_: [(O.from_gp(g, p), complex(float(c[0]), float(c[1]))) for g, p, c in E.dpoly(s_)])
         grp = O.group_elements(act, n)
         ctx.case(('density', tuple(rows), r), len(act) >= 2, sample=dict(op='density_matrix', N=n, r=r, terms=len(terms)))
         if sorted(t[0] for t in terms) != sorted(grp) or len(set(t[0] for t in terms)) != len(terms):
